@@ -7,6 +7,7 @@ import (
 	"errors"
 	"io"
 	"net"
+	"os"
 	"time"
 
 	"github.com/miekg/dns"
@@ -17,8 +18,10 @@ import (
 type vrtSrvConn struct {
 	rx     []byte
 	eof    bool
-	writes [][]byte
-	closed bool
+	writes  [][]byte
+	partial []bool // writes[i] was cut short by a write deadline
+	wdlSet  bool
+	closed  bool
 }
 
 type vrtAddr struct{}
@@ -43,12 +46,22 @@ func (c *vrtSrvConn) Read(p []byte) (n int, err error) {
 	return
 }
 func (c *vrtSrvConn) Write(p []byte) (n int, err error) {
+	// like a socket: without a write deadline a Write completes (or the connection is dead);
+	// with one it may time out after part of the bytes went out - the connection stays usable
+	cut := c.wdlSet && len(p) > 5 && vrtChoice(2) == 1
 	vrtAtomic(func() {
 		if c.closed {
 			err = vrtErrClosed
 			return
 		}
+		if cut {
+			c.writes = append(c.writes, append([]byte(nil), p[:5]...))
+			c.partial = append(c.partial, true)
+			n, err = 5, os.ErrDeadlineExceeded
+			return
+		}
 		c.writes = append(c.writes, append([]byte(nil), p...))
+		c.partial = append(c.partial, false)
 		n = len(p)
 	})
 	return
@@ -56,9 +69,12 @@ func (c *vrtSrvConn) Write(p []byte) (n int, err error) {
 func (c *vrtSrvConn) Close() error                       { vrtAtomic(func() { c.closed = true }); return nil }
 func (c *vrtSrvConn) LocalAddr() net.Addr                { return vrtAddr{} }
 func (c *vrtSrvConn) RemoteAddr() net.Addr               { return vrtAddr{} }
-func (c *vrtSrvConn) SetDeadline(t time.Time) error      { return nil }
+func (c *vrtSrvConn) SetDeadline(t time.Time) error      { return c.SetWriteDeadline(t) }
 func (c *vrtSrvConn) SetReadDeadline(t time.Time) error  { return nil }
-func (c *vrtSrvConn) SetWriteDeadline(t time.Time) error { return nil }
+func (c *vrtSrvConn) SetWriteDeadline(t time.Time) error {
+	vrtAtomic(func() { c.wdlSet = !t.IsZero() })
+	return nil
+}
 
 type vrtListener struct {
 	pending []*vrtSrvConn
@@ -167,12 +183,22 @@ func vrtHarness_C03_serveTCP() {
 	vrtWaitQuiescent()
 	vrtCover("queries served", true)
 	dropped := h.dropIdx >= 0 && h.dropIdx < wantSeen
-	if !dropped && !garbage {
+	cutShort := false
+	for _, p := range c.partial {
+		cutShort = cutShort || p
+	}
+	if !dropped && !garbage && !cutShort {
 		vrtAssert("exactly one reply per query", len(c.writes) == k)
 	}
 	vrtAssert("never more replies than queries", len(c.writes) <= wantSeen)
 	used := make([]bool, k)
-	for _, w := range c.writes {
+	for i, w := range c.writes {
+		if c.partial[i] {
+			vrtCover("a reply was cut short by a write deadline", true)
+			// the client has received part of a frame: nothing else may follow on this stream
+			vrtAssert("nothing is written after a frame that went out only in part: every frame a client reads is intact", i == len(c.writes)-1)
+			continue
+		}
 		vrtAssert("each Write is one whole frame: 2-byte length prefix + a message of exactly that length", vrtAnd(len(w) == 14, w[0] == 0, w[1] == 12))
 		if len(w) != 14 {
 			continue
